@@ -191,6 +191,17 @@ def run(case):
                 out.fail((name, "does-not-return-self"), where)
                 return out
             r = None if not is_err(r) else r
+        elif name in ("iadd-self", "isub-self"):
+            # the graph itself as the other operand: a set united with itself is itself, minus itself is empty
+            touched = []
+            if name == "isub-self":
+                removed_once |= set(w.model)
+                w.model = set()
+            r = sut(g.__iadd__ if name == "iadd-self" else g.__isub__, g)
+            if not is_err(r) and r is not g:
+                out.fail((name, "does-not-return-self"), where)
+                return out
+            r = None if not is_err(r) else r
         elif name == "binop":
             ts = [w.t(j) for j in op[2]]; touched = ts
             h = Graph()
@@ -280,7 +291,7 @@ def strategy(tier):
         st.tuples(st.just("remove"), si, pi, oi),
         st.tuples(st.just("set"), si, pi, oi),
         st.tuples(st.just("iadd"), tris, st.booleans()),
-        st.tuples(st.just("isub"), tris, st.booleans()),
+        st.tuples(st.just("isub"), tris, st.booleans()), st.tuples(st.just("iadd-self")), st.tuples(st.just("isub-self")),
         st.tuples(st.just("binop"), st.sampled_from(["+", "-", "*", "^", "r-", "r*"]), tris),
         st.tuples(st.just("open"), wsi, wpi, woi),
         st.tuples(st.just("step"), st.integers(0, 3), st.integers(1, 3)),
